@@ -4,7 +4,8 @@ PROPS["C04"] = P(
     "usize::MAX, sequences with duplicates, long stretches of empty buckets, values at 0 and at u) queried with index_of/contains/succ/succ_strict/pred/pred_strict: every q in x_0-2..=x_last+2 when that range is <= 8192, "
     "otherwise all elements +-1, bucket boundaries k*2^l +-1, 2048 random values, always 0, 1, u-1, u; and, in cases of their own, q > u (u+1, next-bucket boundaries, 2u, 2^63, usize::MAX-1, usize::MAX, random). "
     "Every answer is compared with partition_point/binary_search on the generated Vec<usize> (any index holding the value is accepted). Types: EfSeqDict, EfDict (index_of + unchecked succ/pred within their precondition), "
-    "and five other zero/one selector stacks. distinct_nontrivial = number of distinct (variant, n class, u class, sequence class, query group) cells observed with n >= 2, at least two distinct values and a non-empty query set",
+    "and five other zero/one selector stacks. distinct_nontrivial = number of distinct (variant, n class, u class, sequence class, query group) cells observed with n >= 2, at least two distinct values and a non-empty query set"
+    ' All six queries also through D = &EliasFano (forwarding impls for &T), the unchecked ones included. ',
     dict(builds=["DBG", "UBC"], max_restarts=10000),
     dict(builds=["DBG", "UBC", "ASAN", "MIRI"], shards={"MIRI": 6, "ASAN": 4, "DBG": 3, "UBC": 3}, max_restarts=10000),
     hang="violation",
